@@ -250,6 +250,39 @@ def run_lines(cmd, cases, timeout=1800, env=None, chunk=None):
     return results
 
 
+def run_json(cmd, reqs, timeout=1800, env=None):
+    """JSON-lines protocol (harness bin `prog`): one request object per line, one response per line.
+    A request on which the process dies or hangs (the bin prints {"hang":true} and exits) gets
+    {"crash": rc} / {"hang": true}; the remaining requests are re-run in a fresh process."""
+    results = []
+    i = 0
+    n = len(reqs)
+    while i < n:
+        inp = "\n".join(json.dumps(r) for r in reqs[i:]) + "\n"
+        rc, o, e = sh(cmd, inp=inp, timeout=timeout, env=env)
+        lines = [l for l in o.split("\n") if l.strip()]
+        got = []
+        for l in lines[: n - i]:
+            try:
+                got.append(json.loads(l))
+            except Exception:
+                got.append({"garbled": l[:200]})
+        results.extend(got)
+        i += len(got)
+        if got and isinstance(got[-1], dict) and got[-1].get("hang"):
+            continue
+        if i < n and len(got) < n - (i - len(got)):
+            results.append({"crash": rc, "stderr": (e or "")[-300:]})
+            i += 1
+    return results
+
+
+def run_prog(reqs, release=False, watchdog_ms=10000, **kw):
+    env = dict(ENV)
+    env["MJVERIF_WATCHDOG_MS"] = str(watchdog_ms)
+    return run_json([bin_path("prog", release)], reqs, env=env, **kw)
+
+
 def run_impl(binname, cases, release=False, **kw):
     return run_lines([bin_path(binname, release)], cases, **kw)
 
